@@ -53,6 +53,48 @@ CHECKS["C12"] = dict(
          "user callbacks, reporter/tracer installation. Linearizability is argued from one lock + one critical "
          "section per operation (written argument), the sequential behaviour being C01-C08/C13.")
 
+CHECKS["C15"] = dict(
+    technique="context-sensitive severity resolution by an interprocedural automaton over destructor-rooted and "
+              "dispatch-rooted call chains; parameter-to-argument data-flow of report locations; CFG loop/dominance "
+              "checks of the no-match report",
+    text="Every report reachable from any library destructor or from mock destruction is non-fatal and every report "
+         "reachable from the mock-call dispatch is fatal, on all paths and call chains, with severity parameters bound "
+         "per calling context (so a conforming reporter is never made to throw from a destructor, for every history). "
+         "The location argument of each report site flows from the reporting expectation's own loc field over all "
+         "callers; the no-match report prints all actual parameters, tests and lists every saturated expectation that "
+         "matches, lists live ones only otherwise, with no early exit from either loop.",
+    design_ref="DESIGN.md section 4, C15", note="Not decided: wording of the messages.")
+CHECKS["C05"] = dict(
+    technique="decision tables of the cost/order/retire_until loop steps by interpreting the extracted CFG over all "
+              "atom valuations (TABLE); typestate automaton over the two sequence-step consumers (AUTOMATON); "
+              "who-may-call / ordering checks",
+    text="The sequence cost, order (maximum over sequences), can_be_called and retire_until steps equal their "
+         "specification on every valuation of their atoms; both consumers of a sequence step (mock call, monitored "
+         "destruction) validate only when not callable and before any mutation, count exactly once, retire their "
+         "predecessors on every accepted path, and a path ending in a fatal report has changed no state; registration "
+         "appends under the lock; validate_match reports iff not first in line with the caller's severity.",
+    design_ref="DESIGN.md section 4, C05",
+    note="The step tables lift to the loops' results, and these to all histories, by the induction written in DESIGN.md "
+         "(not machine-checked).")
+CHECKS["C04"] = dict(
+    technique="truth table of the end-of-life guard (TABLE), edge dominance of the emitters (DOM), report-once "
+              "automaton, who-may-call, loop-order check of decommission",
+    text="is_unfulfilled equals (not reported and linked and not satisfied) on all 8 valuations; both lifetime ends "
+         "evaluate it on every path and report exactly on its true edge; the report marks the expectation as reported "
+         "and is sent exactly once, non-fatally, with location, name, expected values, required and actual counts; "
+         "only the two lifetime ends may emit it; mock destruction visits every expectation (report, then unlink). "
+         "reported and unlinked are absorbing, hence at most one end-of-life report per expectation over every history.",
+    design_ref="DESIGN.md section 4, C04", note="Not decided: message wording.")
+CHECKS["C08"] = dict(
+    technique="typestate automata over the dispatch function and over every function that evaluates WITH clauses "
+              "(edge-sensitive), protocol automaton of run_actions, who-may-append, compile-time type witnesses",
+    text="On every accepted path of every dispatch instantiation the selected candidate's actions run exactly once and "
+         "then its return expression exactly once, whose result is what the mock function returns; the call is counted "
+         "before the first side effect; side effects and conditions are appended in declaration order and iterated "
+         "over the whole list; in every function that evaluates WITH clauses no clause is evaluated after one has "
+         "failed; reference returns keep object identity by type.",
+    design_ref="DESIGN.md section 4, C08", note="Not decided: what the user's expressions compute.")
+
 NOT_APPLICABLE = {}
 
 
